@@ -253,7 +253,7 @@ func (pr *printer) auxTaskFunc(f *FlowP, t *TaskP) string {
 	var tparams, targs []string
 	tyName := func(ty int) string {
 		if f.Types[ty].Kind == TOther {
-			return fmt.Sprintf("other.X%d", f.Types[ty].X)
+			return otherName(f.Types[ty].X, "")
 		}
 		if n, ok := tp[ty]; ok {
 			return n
@@ -270,7 +270,7 @@ func (pr *printer) auxTaskFunc(f *FlowP, t *TaskP) string {
 		n := tyName(in)
 		params = append(params, fmt.Sprintf("a%d %s", k, n))
 		if f.Types[in].Kind == TOther {
-			args = append(args, fmt.Sprintf("other.UnX%d(a%d)", f.Types[in].X, k))
+			args = append(args, fmt.Sprintf("%s(a%d)", otherName(f.Types[in].X, "Un"), k))
 		} else {
 			args = append(args, fmt.Sprintf("uint64(a%d)", k))
 		}
@@ -279,7 +279,7 @@ func (pr *printer) auxTaskFunc(f *FlowP, t *TaskP) string {
 		n := tyName(out)
 		rets = append(rets, n)
 		if f.Types[out].Kind == TOther {
-			retv = append(retv, fmt.Sprintf("other.MkX%d(o.V[%d])", f.Types[out].X, k))
+			retv = append(retv, fmt.Sprintf("%s(o.V[%d])", otherName(f.Types[out].X, "Mk"), k))
 		} else {
 			retv = append(retv, fmt.Sprintf("%s(o.V[%d])", n, k))
 		}
@@ -406,12 +406,26 @@ func usesOther(p *Prog) bool {
 	return false
 }
 
+// NumOther is the size of the pool of types from packages the program files do
+// not import: 0-7 from package other, 8-11 from cffverif/rt/other/v2 (whose
+// package name, other, is not the last element of its import path).
+const NumOther = 12
+
+// otherName spells type k of the pool (prefix ""), its constructor ("Mk") or
+// projection ("Un") as the ext package sees it.
+func otherName(k int, prefix string) string {
+	if k < 8 {
+		return fmt.Sprintf("other.%sX%d", prefix, k)
+	}
+	return fmt.Sprintf("other2.%sY%d", prefix, k-8)
+}
+
 // AuxHeader is the fixed part of every aux package.
 func AuxHeader() string {
 	var b strings.Builder
-	b.WriteString("// Package ext holds user functions of the generated programs that live in\n// another package, and the only spellings of types of package other the\n// program files can use without importing it.\npackage ext\n\nimport (\n\t\"context\"\n\n\t\"cffverif/rt\"\n\t\"cffverif/rt/other\"\n)\n\nvar _ context.Context\nvar _ rt.H\n\n")
-	for k := 0; k < 8; k++ {
-		fmt.Fprintf(&b, "func MkX%d(x uint64) other.X%d { return other.MkX%d(x) }\nfunc UnX%d(v other.X%d) uint64 { return other.UnX%d(v) }\n\n", k, k, k, k, k, k)
+	b.WriteString("// Package ext holds user functions of the generated programs that live in\n// another package, and the only spellings of types of package other the\n// program files can use without importing it.\npackage ext\n\nimport (\n\t\"context\"\n\n\t\"cffverif/rt\"\n\t\"cffverif/rt/other\"\n\tother2 \"cffverif/rt/other/v2\"\n)\n\nvar _ context.Context\nvar _ rt.H\n\n")
+	for k := 0; k < NumOther; k++ {
+		fmt.Fprintf(&b, "func MkX%d(x uint64) %s { return %s(x) }\nfunc UnX%d(v %s) uint64 { return %s(v) }\n\n", k, otherName(k, ""), otherName(k, "Mk"), k, otherName(k, ""), otherName(k, "Un"))
 	}
 	return b.String()
 }
